@@ -418,6 +418,48 @@ func execCoins(op string) (string, []common.Failure) {
 			fails = append(fails, common.Failure{Clause: "operand-mutated", Signature: "C18:" + k + ":mutated",
 				Detail: fmt.Sprintf("%s: operands after the call: %s %s", op, fmtCoins(a), fmtCoins(b))})
 		}
+		// results are values of their own: a receiver with spare capacity used again (with the same operand, and with
+		// one whose denominations sort after all of its own) must not reach into an earlier result; an operand used on
+		// both sides is read, not consumed
+		if k == "coins.add" || k == "coins.sub" || k == "coins.safesub" {
+			if bad := try(func() string {
+				a2 := make(sdk.Coins, len(a), len(a)+8)
+				copy(a2, a)
+				call := func(x, y sdk.Coins) sdk.Coins {
+					switch k {
+					case "coins.sub":
+						if !x.IsAllGTE(y) && !y.IsZero() {
+							return x.Add(y)
+						}
+						return x.Sub(y)
+					case "coins.safesub":
+						d, _ := x.SafeSub(y)
+						return d
+					}
+					return x.Add(y)
+				}
+				r1 := call(a2, b)
+				s1 := fmtCoins(r1)
+				tail := sdk.Coins{{Denom: "zzzzzzzzzzzzzzzy", Amount: sdk.NewInt(7)}, {Denom: "zzzzzzzzzzzzzzzz", Amount: sdk.NewInt(9)}}
+				r2 := a2.Add(tail)
+				s2 := fmtCoins(r2)
+				r3 := a2.Add(sdk.Coins{{Denom: "zzzzzzzzzzzzzzzz", Amount: sdk.NewInt(11)}})
+				_ = r3
+				if fmtCoins(r1) != s1 {
+					return fmt.Sprintf("the result %s became %s after the receiver was used again", s1, fmtCoins(r1))
+				}
+				if fmtCoins(r2) != s2 {
+					return fmt.Sprintf("the result %s became %s after the receiver was used again", s2, fmtCoins(r2))
+				}
+				if fmtCoins(a2) != a0 {
+					return fmt.Sprintf("the receiver became %s", fmtCoins(a2))
+				}
+				return ""
+			}); bad != "" && bad != "panic" {
+				fails = append(fails, common.Failure{Clause: "result-independent", Signature: "C18:" + k + ":result-aliases-operand",
+					Detail: fmt.Sprintf("%s: %s", op, bad)})
+			}
+		}
 		// canonical form of results
 		if hasResult {
 			if !canonical(result) {
